@@ -168,6 +168,15 @@ func execHostile(req hostileReq, dir string) (resp hostileResp) {
 			if !try(fmt.Sprintf("FetchFromArchive(%d, now-100, now)", a), func() { db.FetchFromArchive(a, wt.Timestamp(now-100), wt.Timestamp(now), wt.Timestamp(now)) }) {
 				return
 			}
+			if !try(fmt.Sprintf("FetchFromArchive(%d, 0, 2^32-1, now)", a), func() { db.FetchFromArchive(a, 0, wt.Timestamp(4294967295), wt.Timestamp(now)) }) {
+				return
+			}
+			if !try(fmt.Sprintf("FetchFromArchive(%d, now-1, 2^32-1, now)", a), func() { db.FetchFromArchive(a, wt.Timestamp(now-1), wt.Timestamp(4294967295), wt.Timestamp(now)) }) {
+				return
+			}
+			if !try(fmt.Sprintf("FetchFromArchive(%d, 0, 0, now)", a), func() { db.FetchFromArchive(a, 0, 0, wt.Timestamp(now)) }) {
+				return
+			}
 			if a >= 0 {
 				if !try(fmt.Sprintf("GetAllRawUnsortedPoints(%d)", a), func() { db.GetAllRawUnsortedPoints(a) }) {
 					return
